@@ -3,7 +3,6 @@ package rules
 import (
 	"fmt"
 	"go/token"
-	"go/types"
 	"strings"
 
 	"dtnverif/core"
@@ -18,18 +17,9 @@ const (
 	bbcPkg  = "pkg/cla/bbc"
 )
 
-// namedErrAlloc returns the alloc of the named error result `err` of fn
-// (spilled because of defer), or nil.
+// namedErrAlloc returns the spill slot of fn's (last) error result, or nil.
 func namedErrAlloc(fn *ssa.Function) *ssa.Alloc {
-	var out *ssa.Alloc
-	core.EachInstr(fn, func(in ssa.Instruction) {
-		if a, ok := in.(*ssa.Alloc); ok && a.Comment == "err" {
-			if pt, ok := a.Type().Underlying().(*types.Pointer); ok && isErrorType(pt.Elem()) {
-				out = a
-			}
-		}
-	})
-	return out
+	return core.ResultSlot(fn, fn.Signature.Results().Len()-1)
 }
 
 // C12 — MTCP and broadcast links deliver what was sent or report failure.
@@ -154,7 +144,7 @@ func checkMTCP(p *core.Program, r *core.Report) {
 				x, isNil, ok := core.NilCmp(cd)
 				if ok && !isNil {
 					if ld, ok := x.(*ssa.UnOp); ok {
-						if fv, ok := ld.X.(*ssa.FreeVar); ok && fv.Name() == "err" {
+						if fv, ok := ld.X.(*ssa.FreeVar); ok && core.FreeVarBoundTo(send, cl, fv, errA) {
 							okReport = true
 						}
 					}
@@ -433,7 +423,7 @@ func checkBBC(p *core.Program, r *core.Report) {
 				x, isNil, ok := core.NilCmp(cd)
 				if ok && isNil {
 					if ld, ok := x.(*ssa.UnOp); ok {
-						if a, ok := ld.X.(*ssa.Alloc); ok && a.Comment == "err" {
+						if a, ok := ld.X.(*ssa.Alloc); ok && a == namedErrAlloc(hif) {
 							okB = true
 						}
 					}
@@ -459,7 +449,7 @@ func checkBBC(p *core.Program, r *core.Report) {
 						x, isNil, ok := core.NilCmp(cd)
 						if ok && isNil {
 							if ld, ok := x.(*ssa.UnOp); ok {
-								if fv, ok := ld.X.(*ssa.FreeVar); ok && fv.Name() == "err" {
+								if fv, ok := ld.X.(*ssa.FreeVar); ok && core.FreeVarBoundTo(hif, cl, fv, namedErrAlloc(hif)) {
 									// true edge (err == nil) returns, false edge reaches the send
 									if !core.BlocksReachableFrom(b.Succs[0])[snd.Block()] && core.BlocksReachableFrom(b.Succs[1])[snd.Block()] {
 										okFail = true
